@@ -26,7 +26,7 @@ static std::string text_of(C const& c) { std::ostringstream o; c.serialize(o); r
 
 // ---- integrands -------------------------------------------------------------------------------------
 
-static int g_kind = 5;        // 0 identically zero, 1 constant, 2 +-1 alternating, 3 NaN everywhere, 4 NaN sometimes, 5 linear, 6 narrow support
+static int g_kind = 5;        // 0 identically zero, 1 constant, 2 +-1 alternating, 3 NaN everywhere, 4 NaN sometimes, 5 linear, 6 narrow support, 7 linear at a tiny scale
 static sz g_counter = 0;
 
 // values depend on the point only, so that serial and MPI runs integrate the same function
@@ -43,6 +43,7 @@ static T value_of(T x)
     case 3: return std::numeric_limits<T>::quiet_NaN();
     case 4: return (cell % 3 == 1) ? std::numeric_limits<T>::quiet_NaN() : T(0.5) + x;
     case 6: return (cell % 8 == 3) ? T(1) + x : T();      // one cell in eight: some iterations have no hit at all
+    case 7: return (T(0.25) + x) * std::sqrt(std::sqrt(std::numeric_limits<T>::min())) * T(1e3L);   // squares of the errors near min()
     default: return T(0.25) + x;
     }
 }
@@ -219,7 +220,7 @@ static void part_b(report& r)
     std::string const tn = vf::type_name<T>();
     std::vector<sz> const calls = {4, 6, 5, 8, 7};
     hep::callback_mode const modes[] = {hep::callback_mode::silent, hep::callback_mode::silent_and_write_chkpt, hep::callback_mode::verbose, hep::callback_mode::verbose_and_write_chkpt};
-    for (int kind = 0; kind != 7; ++kind)
+    for (int kind = 0; kind != 8; ++kind)
     {
         // reference results: iterations do not depend on the callback
         g_kind = kind; g_counter = 0;
